@@ -305,7 +305,7 @@ func scenC15(r *Run) {
 		defer func() { done = true }()
 		nonce := 0
 		for i := 0; i < nops; i++ {
-			op := r.PlanOf("use", "call", "unuse", "call", "use")
+			op := r.PlanOf("use", "call", "unuse", "call", "use", "empty-request")
 			switch op {
 			case "use", "unuse":
 				k := 1 + r.Plan(3)
@@ -342,6 +342,46 @@ func scenC15(r *Run) {
 					}
 					exact.unuse(hs, false)
 					aliasM.unuse(hs, true)
+				}
+			case "empty-request":
+				// a request with an empty body (it asks for the list of functions) is a call at the IO level like any
+				// other: it passes every IO handler, of the client and of the service, there and back
+				nonce++
+				t := &c15trace{id: nonce, sim: sim}
+				_, ioL := exact.lists()
+				c15cur = t
+				ctx := clientCtx(client)
+				if !onService {
+					ctx = context.WithValue(ctx, c15key{}, t)
+				}
+				sim.Event("empty-request", nonce)
+				_, err := client.Request(ctx, nil)
+				c15cur = nil
+				// (on the service the request then is the call of the built-in function list: it goes on through the
+				// service's invoke handlers; on the client Request starts below the invoke handlers)
+				chainOf := func(inv, io []string) []string {
+					var w []string
+					if !onService {
+						inv = nil
+					}
+					for _, m := range c15chainP(io, inv, "", false) {
+						if m != "core" {
+							w = append(w, m)
+						}
+					}
+					return w
+				}
+				invL0, _ := exact.lists()
+				want := chainOf(invL0, ioL)
+				if strings.Join(t.marks, " ") != strings.Join(want, " ") {
+					ai, ao := aliasM.lists()
+					wa := chainOf(ai, ao)
+					cls := "C15:chain-mismatch:empty-request:" + mode
+					if strings.Join(t.marks, " ") == strings.Join(wa, " ") {
+						cls = "C15:chain-mismatch:unuse-removed-aliased-handler:" + mode
+					}
+					r.Fail(cls, "request %d with an empty body: installed IO handlers %v\n expected %v\n observed %v (err %v)", nonce, ioL, want, t.marks, err)
+					return
 				}
 			case "call":
 				nonce++
